@@ -68,8 +68,13 @@ def sc_adversary(rng, n, t, quick):
     forgery kind for several rounds / claimed indices, while only t-1 honest members contribute to a round:
     nothing may be stored for that round; then the honest threshold is restored."""
     steps = [{"op": "startall"}]
-    steps += _round_steps(0, "random", "r1", live=True)
     bad = list(range(t, n)) or []          # corrupted members (they stay silent as honest senders)
+    # before genesis (clocks at -5): a fast-clocked / corrupted member already sends partials for rounds 1..3;
+    # round 1 is the next round (acceptable), anything later is more than one round ahead of the clock
+    for v in range(0, min(2, n)):
+        for rnd in (1, 2, 3):
+            steps.append({"op": "adv", "node": v, "kind": "valid", "as": (bad[0] if bad else (v + 1) % n), "round": rnd})
+    steps += _round_steps(0, "random", "r1", live=True)
     for i in bad:
         steps.append({"op": "stop", "node": i})
     silenced = None
@@ -300,6 +305,11 @@ def scenarios_for(ctx, prop):
         for (n, t) in ([rng.choice([(3, 2), (4, 3), (5, 3)])] if q else [(3, 2), (4, 3), (5, 3), (5, 4)]):
             for k in (t - 1, t, min(n, t + 1)):
                 out.append(sc_threshold(rng, n, t, k))
+    if prop == "C04":   # after restart and around resharing
+        for k in range(2 if q else 10):
+            n, t = rng.choice([(3, 2), (4, 3)])
+            out.append(sc_faults(rng, n, t, k))
+        out.append(sc_reshare(rng, rng.choice(["add1", "replace1", "tup"]), 0))
     if prop in ("C02", "C05", "C01"):
         for k in range(3 if q else 24):
             n, t = rng.choice([(3, 2), (4, 3), (5, 3)])
